@@ -100,6 +100,10 @@ for _pid in ("C01", "C02", "C03", "C04", "C07", "C09", "C10", "C17"):
     _t = TABLE[_pid]
     TABLE[_pid] = (_t[0], _t[1] + METH, _t[2], _t[3])
 
+DIFF = (" OPERATOR LOOPS FROM THE SOURCE: the `for ell in …` loops of Modes.Lsquared, Lz, Lplus, Lminus, Rplus, Rminus (spherical/modes/derivatives.py) and Modes.index with its guards (spherical/modes/utilities.py) are re-translated into Lean on every run (vlib/py2lean_kern.generate_diffkern -> Gen/DiffKern.lean: same ranges, index calls, coefficient expressions and slice statements, for one element of the leading axes), run at Float on the executable flat memory and compared bit for bit with the real methods (strata genmodesop:* of the operators correspondence, incl. non-finite weights), and PROVED, for every spin weight, ell_max, arithmetic and array content, to leave in cell (ell, m) exactly the weight of the hand-written operator of Model/Operators.lean that every theorem of Props/C12 is about (GenDiff.gen_Lz, gen_Lsquared, gen_Lplus, gen_Lminus, gen_Rplus, gen_Rminus), the guards of Modes.index never firing inside the loops (GenDiff.index_never_raises). Rz, eth = Rminus, ethbar = -Rplus and the metadata handling of the constructors remain hand-modelled (bitwise correspondence). ")
+_t = TABLE["C12"]
+TABLE["C12"] = (_t[0] + " + operator loops re-translated from the Python text every run and proved equal to the model", _t[1] + DIFF, _t[2], _t[3])
+
 NOT_YET = {}
 
 
